@@ -14,6 +14,7 @@ import sys
 
 import numpy as np
 
+# (gt defined above)
 from common import Ctx, LeanDriver, Property, err_kind, run_property
 
 
@@ -26,11 +27,59 @@ def bf(s: str) -> float:
     return struct.unpack("<d", struct.pack("<Q", int(s)))[0]
 
 
+def gt(a, b) -> bool:
+    """`a > b` that also fires when either side is NaN (a plain `>` is False on NaN and would let NaN output pass)"""
+    return not (a <= b)
+
+
 def parse_c(line):
     t = line.split()
     if t[0] == "ok":
         return complex(bf(t[1]), bf(t[2])) if len(t) == 3 else bf(t[1])
     return " ".join(t)
+
+
+class nan_patch:
+    """monkeypatch functions of the implementation so that their array result is all-NaN (oracle self-test)"""
+
+    def __init__(self, *targets):
+        self.targets = targets  # (owner object, attribute name, is_static)
+
+    def __enter__(self):
+        self.saved = []
+        for owner, name, static in self.targets:
+            raw = owner.__dict__[name] if isinstance(owner, type) else getattr(owner, name)
+            f = raw.__func__ if isinstance(raw, staticmethod) else raw
+
+            def wrapper(*a, _f=f, **k):
+                out = np.array(_f(*a, **k), copy=True)
+                out = out.astype(np.result_type(out.dtype, np.float32))
+                out[...] = np.nan
+                return out
+
+            self.saved.append((owner, name, raw))
+            setattr(owner, name, staticmethod(wrapper) if static else wrapper)
+        return self
+
+    def __exit__(self, *a):
+        for owner, name, raw in self.saved:
+            setattr(owner, name, raw)
+
+
+def nan_selftest(ctx, label, patches, runs):
+    """every oracle must report something when the implementation returns NaN; `runs` = [(name, callable(scratch_ctx))]"""
+    from common import Ctx as _Ctx
+
+    for name, run in runs:
+        scratch = _Ctx(ctx.pid, ctx.tier, ctx.seed)
+        try:
+            with nan_patch(*patches):
+                run(scratch)
+        except Exception as e:  # an exception under NaN is a detection too
+            scratch.violations.append({"key": f"raised {type(e).__name__}"})
+        ctx.count(f"selftest-nan:{label}:{name}:{'detected' if scratch.violations else 'BLIND'}")
+        if not scratch.violations:
+            ctx.violation(f"oracle-selftest-nan-not-detected:{label}:{name}", {"selftest": name}, {"note": "oracle reported nothing for all-NaN output"})
 
 
 class precision:
@@ -400,7 +449,7 @@ class C04(Property):
                     exp = np.fft.ifft2(P * np.fft.fft2(Tbl * psi))
                 got = st.step(psi, 0)
             err = float(np.abs(got - exp).max() / max(1.0, np.abs(exp).max()))
-            ctx.agree("conventional_multislice_step = F⁻¹(p·F(T_bl·ψ)) with model symbols", case, {"rel_err": err if err > 1e-8 else 0.0},
+            ctx.agree("conventional_multislice_step = F⁻¹(p·F(T_bl·ψ)) with model symbols", case, {"rel_err": 0.0 if err <= 1e-8 else err},
                       {"rel_err": 0.0}, ok=err <= 1e-8)
             ctx.traces += 1
             ctx.count(f"step-structure:transpose={case['transpose']}:conj={dz < 0}")
@@ -424,23 +473,23 @@ class C04(Property):
                 e0 = energy_of(psi)
                 out = st.step(psi, i)
                 e1 = energy_of(out)
-                ratio = e1 / e0
+                ratio = e1 / e0 if np.isfinite(e1) else float('nan')
                 bound, mean2, dev, tbl_dev = st.max_tbl2(i)
                 detail = dict(slice=i, ratio=ratio, max_Tbl_sq=bound, mean_Tbl_sq=mean2, e_before=e0, e_after=e1)
                 ftol = 1e-9 if case["precision"] == "float64" else 2e-5
-                if tbl_dev > (1e-9 if case["precision"] == "float64" else 3e-5):
+                if gt(tbl_dev, (1e-9 if case["precision"] == "float64" else 3e-5)):
                     ctx.violation("bandlimited-transmission-function-differs-from-independent-recomputation", case, dict(max_abs_dev=tbl_dev, **detail))
                 # TransmissionFunction input path (no band-limit): a pure phase object never creates intensity
                 rt = energy_of(st.step_tf(psi, i)) / e0
-                if rt > 1 + tol + (3e-4 if case["precision"] == "float32" else 0):
+                if gt(rt, 1 + tol + (3e-4 if case["precision"] == "float32" else 0)):
                     ctx.violation("pure-phase-transmission-function-step-creates-intensity", case, dict(ratio=rt, slice=i))
-                if dev > ftol:
+                if gt(dev, ftol):
                     ctx.violation("transmission-function-of-real-potential-not-unit-modulus", case, dict(max_dev=dev, **detail))
-                if mean2 > 1 + ftol:
+                if gt(mean2, 1 + ftol):
                     ctx.violation("bandlimited-transmission-function-mean-square-above-one", case, detail)
-                if ratio > max(bound, 1.0) * (1 + tol) + tol:
+                if gt(ratio, max(bound, 1.0) * (1 + tol) + tol):
                     ctx.violation("step-gain-exceeds-proved-bound-max|T_bl|^2", case, detail)
-                elif ratio > 1 + tol + (3e-4 if case["precision"] == "float32" else 0):
+                elif gt(ratio, 1 + tol + (3e-4 if case["precision"] == "float32" else 0)):
                     if bound <= 1 + tol:
                         ctx.violation("step-gain-although-|T_bl|<=1", case, detail)
                     else:
@@ -474,18 +523,18 @@ class C04(Property):
             prop = FresnelPropagator()
             w1 = prop.propagate(w, thickness=case["dz"], in_place=False, order=case["order"])
             e0, e1 = energy_of(psi), energy_of(w1.array)
-            if abs(e1 / e0 - 1) > 10 * tol:
+            if gt(abs(e1 / e0 - 1), 10 * tol):
                 ctx.violation("vacuum-propagation-changes-intensity-of-bandlimited-wave", case, dict(ratio=e1 / e0))
             w2 = FresnelPropagator().propagate(w1, thickness=-case["dz"], in_place=False, order=case["order"])
             err = float(np.abs(np.asarray(w2.array) - psi).max() / np.abs(psi).max())
-            if err > (1e-8 if case["precision"] == "float64" else 2e-3):
+            if gt(err, (1e-8 if case["precision"] == "float64" else 2e-3)):
                 ctx.violation("vacuum-back-propagation-does-not-undo-propagation", case, dict(rel_err=err))
             # any wave (not band-limited): never more intensity
             full = (rng.normal(size=gpts) + 1j * rng.normal(size=gpts)).astype(dtype)
             w3 = FresnelPropagator().propagate(make_waves(full.copy(), case["energy"], sampling, tuple(case["tilt"])),
                                                thickness=case["dz"], in_place=False, order=case["order"])
             r = energy_of(w3.array) / energy_of(full)
-            if r > 1 + 10 * tol:
+            if gt(r, 1 + 10 * tol):
                 ctx.violation("vacuum-propagation-creates-intensity", case, dict(ratio=r))
             # waves living in the taper ring / just around the cutoff (where the aperture is strictly between 0 and 1)
             ring = (rad > rin) & (rad <= abtem.config.get("antialias.cutoff") / 2 / max(sampling) * 1.05)
@@ -494,8 +543,24 @@ class C04(Property):
                 w4 = FresnelPropagator().propagate(make_waves(rw.copy(), case["energy"], sampling, tuple(case["tilt"])),
                                                    thickness=case["dz"], in_place=False, order=case["order"])
                 r4 = energy_of(w4.array) / energy_of(rw)
-                if r4 > 1 + 10 * tol:
+                if gt(r4, 1 + 10 * tol):
                     ctx.violation("vacuum-propagation-creates-intensity-in-taper-ring", case, dict(ratio=r4))
+            # one FresnelPropagator instance reused over a history of (order, thickness, tilt): its cache must never hand
+            # back a kernel computed for other parameters
+            shared = FresnelPropagator()
+            other_tilt = (tuple(case["tilt"])[0] + 3.5, -2.25)
+            hist = [(case["order"], case["dz"], tuple(case["tilt"])), (3 - case["order"], case["dz"], tuple(case["tilt"])),
+                    (3 - case["order"], -case["dz"], tuple(case["tilt"])), (3 - case["order"], -case["dz"], other_tilt),
+                    (case["order"], case["dz"], tuple(case["tilt"]))]
+            prev = None
+            for o, dzz, tl in hist:
+                a = np.asarray(shared.propagate(make_waves(full.copy(), case["energy"], sampling, tl), thickness=dzz, in_place=False, order=o).array)
+                b = np.asarray(FresnelPropagator().propagate(make_waves(full.copy(), case["energy"], sampling, tl), thickness=dzz, in_place=False, order=o).array)
+                e = float(np.abs(a - b).max() / max(float(np.abs(b).max()), 1e-30))
+                if gt(e, 1e-9 if case["precision"] == "float64" else 1e-4):
+                    changed = "first" if prev is None else "+".join(n for n, x, y in zip(("order", "thickness", "tilt"), prev, (o, dzz, tl)) if x != y)
+                    ctx.violation(f"reused-propagator-differs-from-fresh-after-change-of:{changed}", case, dict(rel_err=e, history=[list(map(str, h)) for h in hist]))
+                prev = (o, dzz, tl)
             ctx.count(f"vacuum:order{case['order']}:tilt={'zero' if tuple(case['tilt']) == (0.0, 0.0) else 'set'}:inside={int(inside.sum())>0}")
 
     def multislice_oracle(self, ctx: Ctx, case):
@@ -522,7 +587,11 @@ class C04(Property):
             prod = float(np.prod(bounds))
             dtype = np.complex128 if case["precision"] == "float64" else np.complex64
             nb = case["batch"]
-            psi = (rng.normal(size=(nb,) + gpts) + 1j * rng.normal(size=(nb,) + gpts)).astype(dtype)
+            psi = rng.normal(size=(nb,) + gpts) + 1j * rng.normal(size=(nb,) + gpts)
+            if case.get("bandlimited", True):
+                # keep the incoming waves inside the aperture so that the first antialias cut does not mask a moderate gain
+                psi = np.fft.ifft2(np.fft.fft2(psi) * (indep_aperture(gpts, sampling) >= 1.0))
+            psi = psi.astype(dtype)
             md = {} if tuple(case["tilt"]) == (0.0, 0.0) else {"base_tilt_x": case["tilt"][0], "base_tilt_y": case["tilt"][1]}
             w = Waves(psi.copy(), energy=case["energy"], sampling=sampling, ensemble_axes_metadata=[OrdinalAxis(values=tuple(range(nb)))], metadata=md)
             if case["lazy"]:
@@ -535,7 +604,7 @@ class C04(Property):
             detail = dict(ratio=ratio, product_of_max_Tbl_sq=prod, nslices=len(bounds))
             if ratio > max(prod, 1.0) * (1 + tol * len(bounds)) + tol:
                 ctx.violation("multislice-gain-exceeds-product-of-proved-slice-bounds", case, detail)
-            elif ratio > 1 + 10 * tol:
+            elif gt(ratio, 1 + 10 * tol):
                 ctx.violation("multislice-gain-although-all-|T_bl|<=1" if prod <= 1 + tol else
                               "step-gain-through-bandlimited-transmission-function-with-modulus-above-one", case, detail)
             ctx.count(f"multislice:{case['projection']}:{'lazy' if case['lazy'] else 'eager'}:batch{nb}:{'Tbl>1' if prod > 1 + tol else 'Tbl<=1'}")
@@ -556,9 +625,21 @@ class C04(Property):
             case = gen_case(ctx, potential="atoms")
             case.update(kind="multislice", natoms=rng.randint(1, 3), symbols=[rng.choice(["C", "Si", "Cu", "Au"]) for _ in range(3)],
                         thickness=rng.choice([2.0, 4.0]), dz=rng.choice([0.5, 1.0, 2.0]), projection="infinite" if rng.random() < 0.8 else "finite",
-                        batch=rng.randint(1, 3), lazy=rng.random() < 0.3)
+                        batch=rng.randint(1, 3), lazy=rng.random() < 0.3, bandlimited=rng.random() < 0.7)
             self.multislice_oracle(ctx, case)
             ctx.case(case)
+        self.selftest(ctx)
+
+    def selftest(self, ctx: Ctx):
+        import abtem.multislice as ms
+
+        base = dict(gpts=[8, 10], sampling=[0.1, 0.12], energy=100e3, dz=1.0, order=1, transpose=False, tilt=[0.0, 0.0], potential="random",
+                    strength=0.3, nslices=1, pseed=3, wseed=4, wave="random", precision="float64", symbol="C")
+        ms_case = dict(base, kind="multislice", natoms=1, symbols=["C", "C", "C"], thickness=2.0, projection="infinite", batch=2, lazy=False)
+        nan_selftest(ctx, "propagator", [(ms, "_fresnel_propagator_array", False)],
+                     [("step", lambda c: self.oracle(c, dict(base, kind="step"))),
+                      ("vacuum", lambda c: self.vacuum_oracle(c, dict(base, kind="vacuum", potential="vacuum"))),
+                      ("multislice", lambda c: self.multislice_oracle(c, ms_case))])
 
     def replay(self, ctx: Ctx, case):
         if case.get("kind") == "vacuum":
